@@ -75,6 +75,10 @@ const std::vector<std::string> kExpr = {
   /*23*/ "[a\xE2\x88\x88" U_BOOL "(X1)] a\xE2\x89\xA0X1",       // P1 alternative: negation
   /*24*/ "F1[X1]",
   /*25*/ "P1[X1]",
+  /*26*/ U_BOOL "(X1" U_TIMES "X1)",
+  /*27*/ U_BOOL "(" U_BOOL "(X1" U_TIMES "X1)" U_TIMES "X1)",
+  /*28*/ "(S1, X1)",
+  /*29*/ "S2",
 };
 std::string expr(int i) { return i < 0 ? std::string{} : kExpr.at(static_cast<size_t>(i)); }
 
@@ -118,9 +122,10 @@ StructuredData value_of(int i) {
   case 11: return V(1);
   case 12: return V(3);
   case 13: return Factory::Set({ Factory::SetV({ 1 }), Factory::SetV({ 2 }) });
+  case 14: return Factory::Set({ Factory::Tuple({ E, V(2) }), Factory::Tuple({ Factory::Set({ Factory::Tuple({ V(1), V(2) }) }), V(1) }) });   // {({},2), ({(1,2)},1)}
   }
 }
-constexpr int kValues = 14;
+constexpr int kValues = 14;   // menu of the SetStructureData operation; value 14 is only used by seed J2
 
 // ------------------------------------------------------------------------------------------------
 // own canonical text of a value: iterate, sort (independent of the library's ordering / ToString)
@@ -477,6 +482,16 @@ struct ModelSys {
       m->Emplace(CstType::axiom, expr(25));
       m->Values().SetBasicText(x1, text_of(2));
       m->Calculations().RecalculateAll();
+    } else if (kind == 6) {   // J2: an EMPTY set whose elements are tuples, standing before another component of an enclosing tuple
+      const auto x1 = m->Emplace(CstType::base);
+      const auto s1 = m->Emplace(CstType::structured, expr(26));   // S1 ::= ℬ(X1×X1), left empty
+      const auto s2 = m->Emplace(CstType::structured, expr(27));   // S2 ::= ℬ(ℬ(X1×X1)×X1) = {({},2), ({(1,2)},1)}
+      m->Emplace(CstType::term, expr(28));                         // D1 := (S1, X1)
+      m->Emplace(CstType::term, expr(29));                         // D2 := S2
+      m->Values().SetBasicText(x1, text_of(2));
+      m->Values().SetStructureData(s1, value_of(0));
+      if (!m->Values().SetStructureData(s2, value_of(14))) { fprintf(stderr, "HARNESS-ASSERT: seed J2 data refused\n"); fflush(stderr); abort(); }
+      m->Calculations().RecalculateAll();
     } else if (kind == 2) {
       const auto x1 = m->Emplace(CstType::base);
       m->Emplace(CstType::term, expr(17));   // D1 := D2∪D3   (join, listed first)
@@ -789,7 +804,7 @@ struct ModelSys {
 std::string seed_names(const std::vector<int>& codes) {
   std::string s;
   for (int cde : codes) {
-    const char* n = cde % 10 == 0 ? "M0" : cde % 10 == 1 ? "M1" : cde % 10 == 2 ? "M2" : cde % 10 == 4 ? "M4-callables" : cde % 10 == 5 ? "(inactive)" : "J1";
+    const char* n = cde % 10 == 0 ? "M0" : cde % 10 == 1 ? "M1" : cde % 10 == 2 ? "M2" : cde % 10 == 4 ? "M4-callables" : cde % 10 == 5 ? "(inactive)" : cde % 10 == 6 ? "J2-empty-tuple-set-inside-tuple" : "J1";
     s += std::string(s.empty() ? "" : ", ") + n + (cde / 10 == 0 ? "/uid-ascending" : "/uid-descending");
   }
   return s;
@@ -817,9 +832,9 @@ int main(int argc, char** argv) {
   } else if (opt.mode == "json") {
     res.property = "C10";
     sys.jsonMode = true;
-    table = { 3, 0, 13, 2 };
+    table = { 3, 0, 6, 13, 2 };
     depthA = static_cast<int>(opt.num("depth", opt.thorough() ? 3 : 2));
-    seedsA = static_cast<int>(opt.num("seeds", opt.thorough() ? 4 : 3));
+    seedsA = static_cast<int>(opt.num("seeds", opt.thorough() ? 5 : 3));
   } else { fprintf(stderr, "unknown mode\n"); return 2; }
   sys.seedList = table;
 
@@ -880,7 +895,7 @@ int main(int argc, char** argv) {
                         "clang 14 + libstdc++ 12, ASan+UBSan build, uid hook H1" };
   } else {
     res.alphabet = "as C11 (json menu): AddBasicElement; SetBasicText {1,3} empty {1,2,3}; SetStructureData {} {{}} {{},{1}} {(1,{})} {(1,{1})} {{1},{2}}; ResetDataFor; SetExpressionFor term {X1, syntax error} axiom {1=2} struct {B(X1)}; "
-                   "Erase; Emplace(base | term X1); InsertCopy(D1:=S1uS1 | X2); Calculate; RecalculateAll. seeds: J1 = X1 (non-ASCII names, term, convention), S1::=BB(X1){{},{1}}, S2::=B(X1xB(X1)){(1,{})}, D1:=S1uS1, A1:=S1=S1, title/alias/comment non-ASCII + escapes, calculated; M0; J1 with descending uids; M2";
+                   "Erase; Emplace(base | term X1); InsertCopy(D1:=S1uS1 | X2); Calculate; RecalculateAll. seeds: J1 = X1 (non-ASCII names, term, convention), S1::=BB(X1){{},{1}}, S2::=B(X1xB(X1)){(1,{})}, D1:=S1uS1, A1:=S1=S1, title/alias/comment non-ASCII + escapes, calculated; M0; J2 = X1{1,2}, S1::=B(X1xX1) empty, S2::=B(B(X1xX1)xX1){({},2),({(1,2)},1)}, D1:=(S1,X1), D2:=S2, calculated; J1 with descending uids; M2";
     res.rule = "every reached state: j1=json(model), loaded=from_json(j1) into a fresh RSModel, j2=json(loaded); j2==j1 compared as JSON values (object key order irrelevant, array order significant); "
                "plus field-by-field equality of title/alias/comment, list order and per constituent alias, type, definition, convention, term, text definition, parse status+type, stored data, text interpretation (keys and names), statement value, calculated flag, evaluation status; "
                "non-trivial = states with at least one calculated constituent";
